@@ -231,7 +231,21 @@ func (c *Ctx) kindMaps() *kindMaps {
 		return ""
 	}
 	stores := fieldStores([]*ssa.Function{km.newRequest}, G, "Request", "routeOp")
-	if len(stores) != 1 {
+	if len(stores) > 1 {
+		// one store per arm of the message type switch: r.routeOp = <constant> under `case *XMessage`
+		for _, fs := range stores {
+			tn := typeOfEdge(fs.Store.Block())
+			sv, isC := an.StrConst(fs.Store.Val)
+			if tn == "" || !isC {
+				km.problems = append(km.problems, "newRequest: a store to Request.routeOp at "+c.pos(fs.Store)+" is not a constant under a single message-type case")
+				continue
+			}
+			if old, dup := km.typeToOp[tn]; dup && old != sv {
+				km.problems = append(km.problems, "newRequest: "+tn+" classified twice")
+			}
+			km.typeToOp[tn] = sv
+		}
+	} else if len(stores) != 1 {
 		km.problems = append(km.problems, sprintf("newRequest: %d stores to Request.routeOp", len(stores)))
 	} else {
 		v := stores[0].Store.Val
@@ -251,6 +265,37 @@ func (c *Ctx) kindMaps() *kindMaps {
 		}
 	}
 	estores := fieldStores([]*ssa.Function{km.newRequest}, G, "Request", "extendedName")
+	classify := func(tn string, e ssa.Value) {
+		if sv, isC := an.StrConst(e); isC && sv == "" {
+			km.extNameFrom[tn] = ""
+			return
+		}
+		if base, ok := fieldLoad(e, G, "ExtendedOperationMessage", "Name"); ok {
+			if ex, ok := an.Strip(base).(*ssa.Extract); ok && ex.Index == 0 {
+				if ta, ok := ex.Tuple.(*ssa.TypeAssert); ok && ptrNamed(ta.AssertedType) == tn {
+					km.extNameFrom[tn] = "Name"
+					return
+				}
+			}
+		}
+		km.extNameFrom[tn] = "?" + an.Path(e)
+	}
+	if len(estores) >= 1 {
+		if _, isPhi := estores[0].Store.Val.(*ssa.Phi); !isPhi || len(estores) > 1 {
+			// stores inside the arms of the type switch; types without a store keep the empty name
+			for tn := range km.typeToOp {
+				km.extNameFrom[tn] = ""
+			}
+			for _, fs := range estores {
+				if tn := typeOfEdge(fs.Store.Block()); tn != "" {
+					classify(tn, fs.Store.Val)
+				} else {
+					km.problems = append(km.problems, "newRequest: a store to Request.extendedName at "+c.pos(fs.Store)+" is not under a single message-type case")
+				}
+			}
+			estores = nil
+		}
+	}
 	if len(estores) == 1 {
 		if phi, ok := estores[0].Store.Val.(*ssa.Phi); ok {
 			for i, e := range phi.Edges {
